@@ -1,0 +1,40 @@
+/*
+    Verification hooks (observation only).  Everything in this file, and every
+    use of it, is compiled only when MEDDLY_VERIF is defined; with the guard
+    off the library is exactly what it was.
+*/
+#ifdef MEDDLY_VERIF
+#ifndef MEDDLY_VERIF_HOOKS_H
+#define MEDDLY_VERIF_HOOKS_H
+
+namespace MEDDLY {
+
+    /// Observer interface; a harness installs one in the_verif_tracer.
+    /// All callbacks are made *after* the state change they report.
+    struct verif_tracer {
+        virtual ~verif_tracer() { }
+
+        /// A new node was stored in forest fid under handle h.
+        virtual void newNode(unsigned fid, long h) = 0;
+        /// Node h of forest fid was deleted (storage released, handle kept).
+        virtual void delNode(unsigned fid, long h) = 0;
+        /// Handle h of forest fid went back to the free list.
+        virtual void recycleHandle(unsigned fid, long h) = 0;
+
+        /// Compute table event.
+        ///     kind    0: entry added, 1: entry returned as a hit,
+        ///             2: entry deleted
+        ///     ct      identity of the table object
+        ///     etid    entry type id
+        ///     id      entry identity (chunk handle) while it is live
+        ///     fn      pairs (forest id, node handle), n pairs, for
+        ///             every node-typed slot of key and result
+        virtual void ctEvent(int kind, const void* ct, unsigned etid,
+                unsigned long id, const long* fn, unsigned n) = 0;
+    };
+
+    extern verif_tracer* the_verif_tracer;
+};
+
+#endif
+#endif
